@@ -75,7 +75,8 @@ Bad(w) == [k |-> "viol", why |-> w, slots |-> slots, it |-> it, chk |-> 1, pc |-
 Poison == [k |-> "poison", why |-> "", slots |-> slots, it |-> it, chk |-> 0, pc |-> pcache]
 
 \* logged result of a successful call, adopted as the new state (setup steps)
-Adopt(e, i) == IF e.out # "ok" THEN Poison
+Adopt(e, i) == IF e.out = "err" THEN Setup(slots, i)        \* a reported error leaves every slot as it was
+               ELSE IF e.out # "ok" THEN Poison
                ELSE IF ~AllPostWF(e) THEN (IF WFStrict THEN Bad("malformed table") ELSE Poison)
                ELSE Setup(Adopted(e), i)
 
@@ -201,24 +202,23 @@ MkEcubeExp(e) ==
     [] e.c = "nth_var" -> [v |-> {e.i}, x |-> FALSE]
     [] e.c = "nth_var_inv" -> [v |-> {e.i}, x |-> TRUE]
     [] e.c = "from_vars" -> [v |-> ToSet(e.v), x |-> e.x]
-\* expected cube list of the form constructors that determine it
+\* form constructors: the result denotes the function its name / its cube list says (the
+\* representation is the library's choice); conversions from a Lut are pinned down by C14 / C15
 MkFormOK(e) ==
   LET cs == e.r.cubes
       dec == IF e.k = "soes" THEN DEs(cs) ELSE DCs(cs)
-      one == IF e.k = "soes" THEN [v |-> {}, x |-> TRUE] ELSE CubeOne
-      var == IF e.k = "soes" THEN [v |-> {e.i}, x |-> FALSE] ELSE [p |-> {e.i}, q |-> {}]
-      inv == IF e.k = "soes" THEN [v |-> {e.i}, x |-> TRUE] ELSE [p |-> {}, q |-> {e.i}]
+      den == FormFn(e.k, e.n, cs)
       f == IF e.c \in {"from_lut_ref", "from_lut_val"} THEN ToSet(e.on) ELSE {}
   IN /\ e.r.n = e.n
-     /\ ToSet(e.r.vals) = FormFn(e.k, e.n, cs)                 \* value() is the OR / XOR of the terms
-     /\ CASE e.c = "zero" -> dec = <<>>
-          [] e.c = "one" -> dec = <<one>>
-          [] e.c = "nth_var" -> dec = <<var>>
-          [] e.c = "nth_var_inv" -> dec = <<inv>>
-          [] e.c = "from_cubes" -> dec = (IF e.k = "soes" THEN DEs(e.cubes) ELSE DCs(e.cubes))
-          [] e.k = "sop" -> IsMintermCover(e.n, f, dec) /\ ToSet(e.r.vals) = f
+     /\ ToSet(e.r.vals) = den                                  \* value() is the OR / XOR of the terms
+     /\ CASE e.c = "zero" -> den = {}
+          [] e.c = "one" -> den = Dom(e.n)
+          [] e.c = "nth_var" -> den = NthVar(e.n, e.i)
+          [] e.c = "nth_var_inv" -> den = Dom(e.n) \ NthVar(e.n, e.i)
+          [] e.c = "from_cubes" -> den = FormFn(e.k, e.n, e.cubes)
+          [] e.k = "sop" -> IsMintermCover(e.n, f, dec) /\ den = f
           [] e.k = "esop" -> Len(dec) = Cardinality(PprmCubes(e.n, f)) /\ SeqSet(dec) = PprmCubes(e.n, f)
-                             /\ ToSet(e.r.vals) = f
+                             /\ den = f
 
 TwoOK(e) ==
   CASE e.op = "t_mk" ->
